@@ -281,6 +281,83 @@ def build_spi(mode, dw, maxlen, maxdiv, K):
              cfg=dict(mode=mode, data_width=dw, max_length=maxlen, max_divider=maxdiv), show=m.showl, vcycles=40, timeout_s=3000)
 
 
+class SpiS(Mon):
+    """the real SPISlave on a shared SPI bus driven by an ideal master model (monitor FSM): mode 0, every clock phase and every chip-select
+    margin lasts a symbolic number (>= 4) of system cycles; between transfers addressed to the slave the master may clock OTHER devices
+    (chip-select high, clock pulses, MOSI toggling).  Word, length and the word to return are rigid symbolic."""
+
+    def __init__(self, dw=4):
+        from litex.soc.cores.spi.spi_slave import SPISlave
+        pads = Record(SPISlave.pads_layout)
+        self.submodules.dut = dut = SPISlave(pads, dw)
+        self.W = Signal(dw, name_override="word_sent")          # rigid
+        self.L = Signal(max=dw + 1, name_override="length")     # rigid 1..dw
+        self.M = Signal(dw, name_override="word_to_return")     # rigid
+        self.rig = [self.W, self.L, self.M]
+        adv = Signal(name_override="adv"); go = Signal(name_override="go"); go_other = Signal(name_override="go_other"); mosi_idle = Signal(name_override="mosi_when_deselected")
+        self.free = [adv, go, go_other, mosi_idle]
+        IDLE, SEL, LOW, HIGH, TAIL, OTHER = range(6)
+        ph = self.reg(3, "phase"); dwell = self.reg(3, "dwell"); b = self.reg(3, "bit"); nx = self.reg(2, "transfers")
+        ok = adv & (dwell >= 3)          # a phase lasts at least 4 cycles
+        self.sync += [
+            If(dwell != 7, dwell.eq(dwell + 1)),
+            Case(ph, {
+                IDLE: [If(ok & go & (nx != 3), ph.eq(SEL), dwell.eq(0), b.eq(0)).Elif(ok & go_other, ph.eq(OTHER), dwell.eq(0))],
+                SEL: [If(ok, ph.eq(LOW), dwell.eq(0))],
+                LOW: [If(ok, ph.eq(HIGH), dwell.eq(0))],
+                HIGH: [If(ok, dwell.eq(0), If(b + 1 == self.L, ph.eq(TAIL)).Else(ph.eq(LOW), b.eq(b + 1)))],
+                TAIL: [If(ok, ph.eq(IDLE), dwell.eq(0), nx.eq(nx + 1))],
+                OTHER: [If(ok, ph.eq(IDLE), dwell.eq(0))],
+            }),
+        ]
+        txi = Signal(3, name_override="tx_bit_index"); rxi = Signal(3, name_override="ret_bit_index")
+        self.comb += [txi.eq(self.L - 1 - b), rxi.eq(dw - 1 - b)]
+        bitval = Array([self.W[i] for i in range(dw)] + [0] * (8 - dw))[txi]
+        selected = (ph == SEL) | (ph == LOW) | (ph == HIGH) | (ph == TAIL)
+        self.comb += [pads.cs_n.eq(~selected), pads.clk.eq((ph == HIGH) | (ph == OTHER)),
+                      pads.mosi.eq(Mux((ph == LOW) | (ph == HIGH), bitval, mosi_idle)), dut.miso.eq(self.M)]
+        self.asm = Signal(name_override="asm_length")
+        self.comb += self.asm.eq((self.L >= 1) & (self.L <= dw))
+        # received word and length at the end-of-transfer strobe
+        mask = Signal(dw)
+        self.comb += mask.eq((1 << self.L) - 1)
+        self.bad_rx = Signal(name_override="bad_received_word")
+        self.comb += self.bad_rx.eq(dut.irq & (((dut.mosi ^ self.W) & mask) != 0))
+        self.bad_len = Signal(name_override="bad_length")
+        self.comb += self.bad_len.eq(dut.irq & (dut.length != self.L))
+        # the received word is kept until the next transfer addressed to this slave, whatever happens on the shared bus
+        snap = self.reg(dw, "rx_snapshot"); have = self.reg(1, "have_snapshot")
+        self.sync += [If(dut.irq, snap.eq(dut.mosi), have.eq(1)), If(ph == SEL, have.eq(0))]
+        self.bad_keep = Signal(name_override="bad_received_word_changed_while_deselected")
+        self.comb += self.bad_keep.eq(have & ((ph == IDLE) | (ph == OTHER)) & (dut.mosi != snap))
+        # returned data: at the master's sampling instant (it raises the clock) MISO shows the bits of the word to return, MSB first
+        rising = (ph == LOW) & ok
+        self.bad_miso = Signal(name_override="bad_miso_bit")
+        self.comb += self.bad_miso.eq(rising & (pads.miso != Array([self.M[i] for i in range(dw)] + [0] * (8 - dw))[rxi]))
+        # strobes: exactly one end-of-transfer strobe per transfer, done only while deselected
+        nirq = self.reg(2, "irqs")
+        self.sync += If(dut.irq & (nirq != 3), nirq.eq(nirq + 1))
+        self.bad_irq = Signal(name_override="bad_irq_count")
+        self.comb += self.bad_irq.eq((nirq > nx + ((ph == IDLE) & 0)) & ~((nirq == nx + 1) & ((ph == TAIL) | (ph == IDLE))) | ((ph == IDLE) & (dwell >= 6) & (nirq != nx)))
+        self.bad_done = Signal(name_override="bad_done")
+        self.comb += self.bad_done.eq(dut.done & ((ph == LOW) | (ph == HIGH)))
+        seen_other = self.reg(1, "other_traffic_after_transfer")
+        self.sync += If((ph == OTHER) & (nx >= 1) & (mosi_idle != snap[0]), seen_other.eq(1))
+        self.w = Signal(name_override="w_transfer_then_other_traffic_then_idle")
+        self.comb += self.w.eq(seen_other & (ph == IDLE) & (dwell >= 6) & (nx >= 1))
+        self.w2 = Signal(name_override="w_two_transfers")
+        self.comb += self.w2.eq((nx >= 2) & (nirq >= 2))
+        self.bads = dict(received_word_is_the_word_sent_msb_first=self.bad_rx, length_reported=self.bad_len, received_word_kept_while_deselected=self.bad_keep,
+                         miso_msb_first_valid_at_rising_edges=self.bad_miso, one_irq_per_transfer=self.bad_irq, done_only_while_deselected=self.bad_done)
+        self.showl = [pads.cs_n, pads.clk, pads.mosi, pads.miso, dut.irq, dut.done, dut.length, dut.mosi, ph, b]
+
+
+def build_spi_slave(dw, K):
+    m = SpiS(dw)
+    return H("spi_slave", m, m.free, rigid=m.rig, assume=[m.asm], bad=m.bads, witness=dict(transfer_then_other_traffic=m.w, two_transfers=m.w2), K=K,
+             funcs=FUNCS + ["litex.soc.cores.spi.spi_slave.SPISlave"], cfg=dict(data_width=dw, min_phase_cycles=4), show=m.showl, vcycles=40, timeout_s=3000)
+
+
 class I2cM(Mon):
     def __init__(self, maxload):
         from litex.soc.cores.i2c import I2CMasterMachine
@@ -521,6 +598,7 @@ def jobs(tier):
     js += [Job("uart_tx", build_uart_tx, dict(lo=2**30, hi=2**31, K=38 if T else 26), cost=90 if T else 20, timeout_s=3400),
           Job("uart_tx_inductive_step", build_uart_tx_step, {}, cost=5), Job("uart_tx_invariant_initial", build_uart_tx_init, {}, cost=1),
           Job("spi_master_raw", build_spi, dict(mode="raw", dw=8, maxlen=8 if T else 4, maxdiv=4 if T else 3, K=44 if T else 30), cost=50 if T else 20, timeout_s=3400),
+          Job("spi_slave", build_spi_slave, dict(dw=4, K=70 if T else 56), cost=60, timeout_s=3400),
           Job("spi_master_aligned", build_spi, dict(mode="aligned", dw=8, maxlen=8 if T else 4, maxdiv=4 if T else 3, K=44 if T else 30), cost=50 if T else 20, timeout_s=3400),
           Job("i2c_machine", build_i2c, dict(maxload=0, K=86 if T else 66), cost=60 if T else 30, timeout_s=3400),
           Job("timer_step", build_timer_step, {}), Job("timer_oneshot", build_timer_oneshot, dict(K=12)), Job("watchdog_step", build_wd_step, {}),
